@@ -802,10 +802,12 @@ package raft
 //@ func persistentLog.DiscardEntries
 //@   ensures [spec] err == nil ==> len(l.entries) == 1 && l.entries[0] != nil && l.entries[0].Index == index && l.entries[0].Term == term && l.entries[0].Offset == 0
 //@   ensures [error-frame] err != nil ==> l.entries == old(l.entries)
+//@   ensures [ri] err == nil ==> logRI(l)
 //@   at call encodeLogEntry assert [offset-current] arg1.Offset == fPos[tmpFile] && arg0 == tmpFile
 
 //@ func persistentLog.rename
 //@   requires tmpFile != nil && l.file != nil
+//@   ensures [reopened] err == nil ==> l.file != nil
 //@   at call os.Rename assert [synced-closed-before-rename] fSynced[tmpFile] && fClosed[tmpFile] && fClosed[l.file]
 
 //@ func persistentLog.Replay
